@@ -163,9 +163,11 @@ RATE_MENU = [(1 * u.Hz, True), (2.5 * u.MHz, True), (4 / u.s, True), (1e-3 * u.m
              (np.array(3.0) * u.Hz, True), (np.nan * u.Hz, False), (-np.inf * u.MHz, False), (np.float32(2.0) * u.kHz, True),
              (u.Quantity(3, u.Hz, dtype=int), True), ("1 Hz", False), (1 * u.Hz / u.s, False),
              # not a positive real number once it is a double: complex values, a long-double denormal
-             (5j * u.Hz, False), ((1 + 5j) * u.Hz, False), (u.Quantity(np.longdouble("1e-400"), u.Hz), False)]
+             (5j * u.Hz, False), ((1 + 5j) * u.Hz, False), (u.Quantity(np.longdouble("1e-400"), u.Hz), False),
+             # convertible to Hz but not a frequency Quantity: logarithmic units
+             (u.Dex(-3, u.dex(u.Hz)), False), (3 * u.dex(u.Hz), False), (u.Magnitude(2, u.mag(u.Hz)), False)]
 FC_MENU = [(1 * u.GHz, True), (-3 * u.kHz, True), (0 * u.Hz, True), (7 / u.s, True), (1 * u.m, False), ([1, 2] * u.GHz, False),
-           (5.0, False), (None, False), ([1.4] * u.GHz, False)]
+           (5.0, False), (None, False), ([1.4] * u.GHz, False), (3 * u.dex(u.Hz), False)]
 START_MENU = [(None, True), (T_OK, True), ("2020-01-01T00:00:00", True), (Time(59000.25, format="mjd", scale="tai"), True),
               (Time([59000.0, 59001.0], format="mjd"), False), ("garbage", False), (59000.5, False), ([1, 2], False),
               (Time([59000.0], format="mjd"), False),
@@ -253,6 +255,22 @@ def meta_case(case, res):
                     res.violation("metadata|wrong exception", f"{cls}({sub['args']}): {type(exc).__name__}: {exc}", case, sub)
                 else:
                     res.hits["invalid metadata rejected"] += 1
+    # a length offered as a frequency while the caller's code has spectral equivalencies enabled: still not a frequency
+    x = valid_array(cls, 2)
+    for key in [k for k in ("sample_rate", "chan_bw", "center_freq") if k in mm]:
+        kw = base_kwargs(cls)
+        kw[key] = 3 * u.m
+        res.transitions += 1
+        try:
+            with u.set_enabled_equivalencies(u.spectral()):
+                s = C(x, **kw)
+            res.violation("metadata|invalid accepted", f"{cls}({key}=3 m) under enabled spectral equivalencies yielded an object holding "
+                          f"{getattr(s, key)!r} (contract: ValueError)", case, {"key": key, "ambient": "spectral"})
+        except ValueError:
+            res.hits["length refused as a frequency under ambient equivalencies"] += 1
+        except Exception as e:
+            res.violation("metadata|wrong exception", f"{cls}({key}=3 m) under spectral equivalencies: {type(e).__name__}: {e}", case,
+                          {"key": key, "ambient": "spectral"})
     res.sample({"cls": cls, "menus": {k: len(v) for k, v in mm.items()}}, 1)
 
 
@@ -538,7 +556,7 @@ def main(argv=None):
         required_hits=["refused under python -O", "safe cast applied", "byte-swapped input", "zero-length but valid", "invalid rejected with ValueError",
                        "zero-length AND empty sample shape rejected", "odd nchan with explicit alignment",
                        "invalid metadata rejected", "invalid assignment rejected", "operation outputs monitored",
-                       "baseband stepped slice chain", "copies", "assignment then copy", "like with overrides", "like missing required -> ValueError"],
+                       "baseband stepped slice chain", "copies", "assignment then copy", "like with overrides", "like missing required -> ValueError", "length refused as a frequency under ambient equivalencies"],
         assumptions=["'safe' is NumPy's can_cast(..., 'safe') table", "constructor inputs are NumPy or Dask arrays (the statement's domain)",
                      "baseband chan_bw == sample_rate is demanded at creation, not after a later sample_rate assignment"],
         argv=argv, chunksize=1)
